@@ -158,6 +158,16 @@ type sinkBind struct {
 	Tags []string `query:"tags" form:"tags" json:"tags" xml:"tags"`
 	OK   bool     `query:"ok" json:"ok"`
 	F    float64  `query:"f" json:"f"`
+	// a slice of structs: the binders address its elements with index keys (items.0.name,
+	// items[0][name]) taken from the request
+	Items []sinkItem `query:"items" form:"items" json:"items" xml:"items" header:"items" cookie:"items"`
+	Sub   sinkItem   `query:"sub" form:"sub" json:"sub" header:"sub" cookie:"sub"`
+}
+
+type sinkItem struct {
+	Name string   `query:"name" form:"name" json:"name" xml:"name" header:"name" cookie:"name"`
+	Qty  int      `query:"qty" form:"qty" json:"qty" xml:"qty" header:"qty" cookie:"qty"`
+	Tags []string `query:"tags" form:"tags" json:"tags" header:"tags" cookie:"tags"`
 }
 
 const nOps = 12
@@ -825,6 +835,9 @@ func runSurvive(e *ev.Env) {
 	one("announced-content-length-999999-no-body", appOpts{}, []byte("POST /ks?rid=c10 HTTP/1.1\r\nHost: x\r\nContent-Length: 999999\r\n\r\n"), 0)
 	one("announced-content-length-above-1k-limit", appOpts{kind: cfgBodyLimit}, []byte("POST /ks?rid=c11 HTTP/1.1\r\nHost: x\r\nContent-Length: 999999\r\n\r\n"), 413)
 	one("announced-chunk-size-f0000-no-data", appOpts{}, []byte("POST /ks?rid=c12 HTTP/1.1\r\nHost: x\r\nTransfer-Encoding: chunked\r\n\r\nf0000\r\n"), 0)
+	one("bind-negative-slice-index-query", appOpts{}, get("/ks?rid=c13&items.-1.name=x"), 200)
+	one("bind-negative-slice-index-brackets", appOpts{}, get("/ks?rid=c14&items[-1][name]=x&items[99999999999][qty]=1"), 200)
+	one("bind-negative-slice-index-cookie", appOpts{}, get("/ks?rid=c15", "Cookie: items.-1.name=x\r\n"), 200)
 	one("head-body-too-large", appOpts{}, []byte("HEAD /ks HTTP/1.1\r\nHost: x\r\nContent-Length: 99999999\r\n\r\n"), 0)
 	flashReq := func(v []byte) []byte {
 		return append(append([]byte("GET /ks?rid=c5 HTTP/1.1\r\nHost: x\r\nCookie: fiber_flash="), v...), "\r\n\r\n"...)
